@@ -53,20 +53,21 @@ def parseStandardErrors (se sdse : Option Row) (fix : FixMap) : Except Err SEOut
 
 /-- The end of `_parse_parameter_estimates`: `final` = `final_parameter_estimates`, `sdcorr` = row
     -1000000004 (`none` = KeyError), `cols` = parameter columns of the table.  Returns
-    `parameter_estimates` and `parameter_estimates_sdcorr` (`none` = the all-NaN fallback). -/
+    `parameter_estimates` and `parameter_estimates_sdcorr` (row absent: NaN for the same
+    parameters, `pd.Series(np.nan, index=final_pe.index)`, df197aa). -/
 def parseEstimates (final : Row) (sdcorr : Option Row) (fix : FixMap) (cols : List Str) :
-    Except Err (Row × Option Row) :=
+    Except Err (Row × Row) :=
   if cols.all (fun c => (lookupFix fix c).isSome) then
     let fixedNames := cols.filter (fun c => lookupFix fix c == some true)
     -- Series.drop raises KeyError for a label that is not there
     if fixedNames.all (fun c => (lookupRow final c).isSome) then
       let pe := final.filter (fun p => !fixedNames.contains p.1)
       match sdcorr with
-      | none => .ok (pe, none)
+      | none => .ok (pe, pe.map (fun p => (p.1, none)))
       | some s =>
         match maskNotFixed s fix with
         | .error e => .error e
-        | .ok s' => .ok (pe, some (updateRow pe s'))
+        | .ok s' => .ok (pe, updateRow pe s')
     else .error .keyError
   else .error .keyError
 
@@ -88,7 +89,7 @@ def rowOf : Except Err ExtValue → Except Err (Option Row)
 
 structure RunResult where
   estimates : Row
-  sdcorr : Option Row
+  sdcorr : Row
   se : SEOut
   deriving DecidableEq, Repr
 
